@@ -91,7 +91,19 @@ type Config struct {
 	// regexp): name -> Coq term.  That the term is the variable's value whenever a
 	// translated function runs is part of the table's claim.
 	Vars map[string]string
+	// Prefixes: pure prefixes of functions that go on with effects (see Prefix).
+	Prefixes []Prefix
 }
+
+// Prefix asks for the translation of the pure beginning of a block of an otherwise
+// untranslatable function: the statements of the innermost block of Func that contains the
+// first call (in source order) of the library function Before ("importpath.Name"), up to
+// and not including the statement with that call.  The result is the definition
+// <prefix><Func>_before_<pkg>_<Name>, a function of the local variables the statements
+// read, with the value res (outcome V unit R): Return r if they return r, else Normal of
+// the tuple V of the variables they assign or declare that are visible afterwards.  Every
+// one of those statements must be in the supported subset; what follows them is not looked at.
+type Prefix struct{ Func, Before string }
 
 // Unsupported reports a construct outside the supported subset.
 type Unsupported struct {
@@ -227,6 +239,11 @@ func Translate(fset *token.FileSet, files []*ast.File, pkgPath string, cfg *Conf
 	for _, name := range t.order {
 		body.WriteString(t.function(t.decls[name]))
 		names = append(names, cfg.Prefix+name)
+	}
+	for _, p := range cfg.Prefixes {
+		tx, name := t.prefix(p)
+		body.WriteString(tx)
+		names = append(names, name)
 	}
 	for _, tx := range t.pkgVarTx {
 		t.out.WriteString(tx)
@@ -628,6 +645,7 @@ type funcTr struct {
 	results []*types.Var // named results, nil if unnamed
 	makeVar map[types.Object]bool
 	parents map[ast.Node]ast.Node
+	root    ast.Node // what the aliasing conditions are checked on: the body, or a prefix of a block
 }
 
 func sanitize(s string) string {
@@ -669,7 +687,7 @@ func (t *translator) function(fd *ast.FuncDecl) string {
 	fn := t.info.Defs[fd.Name].(*types.Func)
 	sig := fn.Type().(*types.Signature)
 	ft := &funcTr{t: t, fd: fd, name: fd.Name.Name, sig: sig, names: map[types.Object]string{}, used: map[string]bool{},
-		makeVar: map[types.Object]bool{}, parents: map[ast.Node]ast.Node{}}
+		makeVar: map[types.Object]bool{}, parents: map[ast.Node]ast.Node{}, root: fd.Body}
 	if sig.Variadic() || sig.TypeParams() != nil || fd.Type.TypeParams != nil {
 		t.fail(fd, "variadic or generic function %s", ft.name)
 	}
@@ -743,6 +761,167 @@ func (t *translator) function(fd *ast.FuncDecl) string {
 	fmt.Fprintf(&out, "(* func %s *)\nDefinition %s%s %s\n  : res %s :=\n%s.\n\n", ft.name, t.cfg.Prefix, ft.name,
 		strings.Join(params, " "), ft.resultType(), strings.TrimRight(b.String(), "\n"))
 	return out.String()
+}
+
+// prefix translates the statements in front of the first call of p.Before (see Prefix).
+func (t *translator) prefix(p Prefix) (string, string) {
+	fd := t.decls[p.Func]
+	if fd == nil || fd.Body == nil {
+		t.fail(nil, "prefix: function %s not found (or has no body)", p.Func)
+	}
+	dot := strings.LastIndex(p.Before, ".")
+	if dot < 0 {
+		t.fail(fd, "prefix: %q is not of the form importpath.Name", p.Before)
+	}
+	bpath, bname := p.Before[:dot], p.Before[dot+1:]
+	// the first call of Before, with its ancestors
+	var stack, found []ast.Node
+	ast.Inspect(fd.Body, func(n ast.Node) bool {
+		if n == nil {
+			stack = stack[:len(stack)-1]
+			return true
+		}
+		stack = append(stack, n)
+		if found != nil {
+			return true
+		}
+		if c, ok := n.(*ast.CallExpr); ok {
+			if sel, ok := ast.Unparen(c.Fun).(*ast.SelectorExpr); ok && sel.Sel.Name == bname {
+				if x, ok := sel.X.(*ast.Ident); ok {
+					if pn, ok := t.info.Uses[x].(*types.PkgName); ok && pn.Imported().Path() == bpath {
+						found = append([]ast.Node{}, stack...)
+					}
+				}
+			}
+		}
+		return true
+	})
+	if found == nil {
+		t.fail(fd, "prefix: no call of %s in %s", p.Before, p.Func)
+	}
+	// the innermost statement list that contains it
+	var list []ast.Stmt
+	var at ast.Node
+	for i := len(found) - 1; i >= 0 && list == nil; i-- {
+		switch b := found[i].(type) {
+		case *ast.BlockStmt:
+			list, at = b.List, found[i+1]
+		case *ast.CaseClause:
+			list, at = b.Body, found[i+1]
+		case *ast.CommClause:
+			list, at = b.Body, found[i+1]
+		}
+	}
+	k := -1
+	for i, st := range list {
+		if ast.Node(st) == at {
+			k = i
+		}
+	}
+	if k < 0 {
+		t.fail(fd, "prefix: the call of %s in %s is not inside a statement list", p.Before, p.Func)
+	}
+	pre, rest := list[:k], list[k:]
+	key := p.Func + "_before_" + sanitize(strings.ReplaceAll(bpath, "/", "_")) + "_" + bname
+	var lo, hi token.Pos
+	if k > 0 {
+		lo, hi = pre[0].Pos(), pre[k-1].End()
+	} else {
+		lo, hi = rest[0].Pos(), rest[0].Pos()
+	}
+	for _, te := range t.terrs {
+		if te.Pos >= lo && te.Pos < hi {
+			t.fail(nil, "%s: in %s before %s: not in the supported subset (type checker: %s)", t.fset.Position(te.Pos), p.Func, p.Before, te.Msg)
+		}
+	}
+	fn := t.info.Defs[fd.Name].(*types.Func)
+	ft := &funcTr{t: t, fd: fd, name: key, sig: fn.Type().(*types.Signature), names: map[types.Object]string{}, used: map[string]bool{},
+		makeVar: map[types.Object]bool{}, parents: map[ast.Node]ast.Node{}, root: &ast.BlockStmt{List: pre}}
+	var defs []*ast.Ident
+	for id, obj := range t.info.Defs {
+		if v, ok := obj.(*types.Var); ok && !v.IsField() && id.Pos() >= fd.Pos() && id.Pos() < fd.End() {
+			defs = append(defs, id)
+		}
+	}
+	sort.Slice(defs, func(i, j int) bool { return defs[i].Pos() < defs[j].Pos() })
+	for _, id := range defs {
+		if id.Name != "_" {
+			ft.declare(t.info.Defs[id])
+		}
+	}
+	var pstack []ast.Node
+	ast.Inspect(fd, func(n ast.Node) bool {
+		if n == nil {
+			pstack = pstack[:len(pstack)-1]
+			return true
+		}
+		if len(pstack) > 0 {
+			ft.parents[n] = pstack[len(pstack)-1]
+		}
+		pstack = append(pstack, n)
+		return true
+	})
+	var preN, restN []ast.Node
+	for _, st := range pre {
+		preN = append(preN, st)
+	}
+	for _, st := range rest {
+		restN = append(restN, st)
+	}
+	// calls of translated functions and loops inside the prefix: the bound
+	for _, st := range pre {
+		ast.Inspect(st, func(n ast.Node) bool {
+			switch n := n.(type) {
+			case *ast.ForStmt:
+				t.needFuel[key] = true
+			case *ast.CallExpr:
+				if c := t.callee(n); c != "" {
+					if !inSet(t.cfg.Funcs, c) {
+						t.fail(n, "call of %s, which is not among the translated functions", c)
+					}
+					if t.needFuel[c] {
+						t.needFuel[key] = true
+					}
+				}
+			}
+			return true
+		})
+	}
+	ft.checkAliasing()
+	// V: what the statements assign (declared before them) or declare for what follows
+	set := map[*types.Var]bool{}
+	for _, v := range ft.assigned(lo, hi, preN...) {
+		set[v] = true
+	}
+	later := map[*types.Var]bool{}
+	for _, v := range ft.free(token.NoPos, token.NoPos, restN...) {
+		later[v] = true
+	}
+	for _, id := range defs {
+		v := t.info.Defs[id].(*types.Var)
+		if id.Pos() >= lo && id.Pos() < hi && later[v] && id.Name != "_" {
+			set[v] = true
+		}
+	}
+	vars := sortVars(set)
+	var params []string
+	if t.needFuel[key] {
+		params = append(params, "(fuel : nat)")
+	}
+	for _, v := range ft.free(lo, hi, preN...) {
+		if t.kindOf(v.Type()) == kPtrStruct {
+			t.fail(fd, "prefix: pointer variable %s is read", v.Name())
+		}
+		params = append(params, fmt.Sprintf("(%s : %s)", ft.names[v], t.coqType(fd, v.Type())))
+	}
+	body := ft.block(pre, mode{kind: mOut, vars: vars}, "  ")
+	var out strings.Builder
+	for _, l := range ft.loops {
+		out.WriteString(l)
+	}
+	fmt.Fprintf(&out, "(* func %s: the %d statement(s) of their block in front of the statement with the first call of %s *)\nDefinition %s%s %s\n  : res (outcome %s unit %s) :=\n%s.\n\n",
+		p.Func, len(pre), p.Before, t.cfg.Prefix, key, strings.Join(params, " "), ft.tupleType(vars), ft.resultType(), strings.TrimRight(body, "\n"))
+	return out.String(), t.cfg.Prefix + key
 }
 
 // ---------------------------------------------------------------- analyses
@@ -978,7 +1157,7 @@ func (ft *funcTr) checkAliasing() {
 	}
 	var asgs []asg
 	zeroDecl := map[types.Object]bool{}
-	ast.Inspect(ft.fd.Body, func(n ast.Node) bool {
+	ast.Inspect(ft.root, func(n ast.Node) bool {
 		switch s := n.(type) {
 		case *ast.AssignStmt:
 			for i, l := range s.Lhs {
@@ -1034,7 +1213,7 @@ func (ft *funcTr) checkAliasing() {
 			t.fail(ft.fd, "variable %s made by make is assigned more than once", o.Name())
 		}
 	}
-	ast.Inspect(ft.fd.Body, func(n ast.Node) bool {
+	ast.Inspect(ft.root, func(n ast.Node) bool {
 		id, ok := n.(*ast.Ident)
 		if !ok {
 			return true
@@ -1066,7 +1245,7 @@ func (ft *funcTr) checkAliasing() {
 		t.fail(id, "slice %s made by make is used in a way that may create an alias (allowed: %s[i], %s[i] = v, len, copy(%s, ...), return)", id.Name, id.Name, id.Name, id.Name)
 		return true
 	})
-	ast.Inspect(ft.fd.Body, func(n ast.Node) bool {
+	ast.Inspect(ft.root, func(n ast.Node) bool {
 		switch s := n.(type) {
 		case *ast.AssignStmt:
 			for _, l := range s.Lhs {
@@ -1094,7 +1273,7 @@ func (ft *funcTr) checkAliasing() {
 	})
 	// 2. append only as x = append(x, ...) on an owned target that starts empty
 	appendTargets := map[string]ast.Expr{}
-	ast.Inspect(ft.fd.Body, func(n ast.Node) bool {
+	ast.Inspect(ft.root, func(n ast.Node) bool {
 		c, ok := n.(*ast.CallExpr)
 		if !ok || ft.builtin(c) != "append" {
 			return true
@@ -1165,7 +1344,7 @@ func (ft *funcTr) checkAliasing() {
 		}
 	}
 	// 3. pointers: only p := new(T); p.f; return p
-	ast.Inspect(ft.fd.Body, func(n ast.Node) bool {
+	ast.Inspect(ft.root, func(n ast.Node) bool {
 		e, ok := n.(ast.Expr)
 		if !ok {
 			return true
